@@ -207,7 +207,7 @@ def check_rules(pid, tier, seed):
     chk.finish()
 
 
-FAMILY_SHARDS = {"KXK": 64, "EP": 28, "CASTLE": 10, "PROMO": 16, "PIN": 20, "KXXK": 128}
+FAMILY_SHARDS = {"KXK": 64, "EP": 28, "CASTLE": 10, "PROMO": 16, "PIN": 20, "KXXK": 128, "MINOR": 8}
 
 
 def family_plan(pid, quick, seed):
@@ -217,9 +217,9 @@ def family_plan(pid, quick, seed):
     pick = lambda fam, n: rnd.sample(range(FAMILY_SHARDS[fam]), n)
     if quick:
         if pid == "C13":
-            plan = [("KXK", s, 6) for s in pick("KXK", 6)] + [("KXXK", s, 900) for s in pick("KXXK", 4)] + [("PROMO", s, 8) for s in pick("PROMO", 2)] + [("CASTLE", s, 6) for s in pick("CASTLE", 2)]
+            plan = [("KXK", s, 6) for s in pick("KXK", 6)] + [("KXXK", s, 900) for s in pick("KXXK", 4)] + [("PROMO", s, 8) for s in pick("PROMO", 2)] + [("CASTLE", s, 6) for s in pick("CASTLE", 2)] + [("MINOR", s, 4) for s in pick("MINOR", 1)]
         elif pid == "C05":
-            plan = [("KXK", s, 3) for s in pick("KXK", 7)] + [("KXXK", s, 600) for s in pick("KXXK", 5)] + [("PROMO", s, 6) for s in pick("PROMO", 2)]
+            plan = [("KXK", s, 3) for s in pick("KXK", 7)] + [("KXXK", s, 600) for s in pick("KXXK", 5)] + [("PROMO", s, 6) for s in pick("PROMO", 2)] + [("MINOR", s, 2) for s in pick("MINOR", 2)]
         elif pid == "C02":
             plan = [("CASTLE", s, 3) for s in pick("CASTLE", 5)] + [("EP", s, 4) for s in pick("EP", 4)] + [("PROMO", s, 5) for s in pick("PROMO", 3)] + [("KXK", s, 8) for s in pick("KXK", 2)]
         elif pid == "C10":
@@ -230,9 +230,9 @@ def family_plan(pid, quick, seed):
     else:
         # thorough: complete enumeration of the cheap families, strided enumeration of the large ones (~25-35 min on 16 cores)
         if pid == "C13":
-            plan = [("KXK", s, 2) for s in range(64)] + [("KXXK", s, 800) for s in range(128)] + [("PROMO", s, 4) for s in range(16)] + [("CASTLE", s, 3) for s in range(10)]
+            plan = [("KXK", s, 2) for s in range(64)] + [("KXXK", s, 800) for s in range(128)] + [("PROMO", s, 4) for s in range(16)] + [("CASTLE", s, 3) for s in range(10)] + [("MINOR", s, 1) for s in range(8)]
         elif pid == "C05":
-            plan = [("KXK", s, 1) for s in range(64)] + [("KXXK", s, 400) for s in range(128)] + [("PROMO", s, 2) for s in range(16)]
+            plan = [("KXK", s, 1) for s in range(64)] + [("KXXK", s, 400) for s in range(128)] + [("PROMO", s, 2) for s in range(16)] + [("MINOR", s, 1) for s in range(8)]
         elif pid == "C10":
             plan = [("PIN", s, 10) for s in range(20)] + [("KXK", s, 2) for s in range(64)] + [("EP", s, 2) for s in range(28)] + [("CASTLE", s, 2) for s in range(10)]
         elif pid == "C02":
